@@ -15,10 +15,13 @@ case "$file" in
   mime.go|entity_accessors.go) ids="C05 C16 C02" ;;
   request.go) ids="C16 C04 C13" ;;
   compress.go|compressor_cache.go|compressor_pools.go) ids="C07 C13 C10" ;;
-  cors_filter.go) ids="C08 C09" ;;
+  cors_filter.go) ids="C08 C09 C19" ;;
   options_filter.go) ids="C17 C09" ;;
   filter.go|filter_adapter.go) ids="C06 C15" ;;
-  web_service.go|route_builder.go) ids="C01 C02 C11 C04 C05 C17" ;;
+  web_service.go|route_builder.go) ids="C01 C02 C11 C04 C05 C17 C12" ;;
+  web_service_container.go) ids="C10 C17 C11 C02" ;;
+  service_error.go) ids="C05 C02 C15 C19" ;;
+  logger.go|log/log.go) ids="C02 C05 C19" ;;
   *) ids="C01 C02 C03 C04 C05 C06 C07 C08 C09 C10 C11 C12 C13 C14 C15 C16 C17 C18 C19" ;;
 esac
 [ -n "$MUT_IDS" ] && ids="$MUT_IDS"
